@@ -310,6 +310,76 @@ func (w *World) KeyOnlyBurst(h *StoreH, readers, opsEach int) bool {
 	return true
 }
 
+// ValueBurst (C15 under concurrency): load every item key-only first, then
+// let several goroutines fetch the values of the same items concurrently,
+// releasing what they are handed.
+func (w *World) ValueBurst(h *StoreH, readers, opsEach int) bool {
+	names := h.St.GetCollectionNames()
+	if h.File == nil || len(names) == 0 {
+		return true
+	}
+	for _, n := range names {
+		c := h.St.GetCollection(n)
+		for _, k := range w.U.Keys {
+			if it, err := c.GetItem(k, false); err == nil && it != nil {
+				w.handOut(h, c, it)
+			}
+		}
+	}
+	h.File.Gate = func(kind byte, off int64, n int) { runtime.Gosched() }
+	defer func() { h.File.Gate = nil }()
+	var wg sync.WaitGroup
+	failed := int32(0)
+	for g := 0; g < readers; g++ {
+		g := g
+		wg.Add(1)
+		go func() {
+			defer wg.Done()
+			defer func() {
+				if r := recover(); r != nil {
+					atomic.StoreInt32(&failed, 1)
+				}
+			}()
+			rr := rand.New(rand.NewSource(int64(w.nEvents*17 + g)))
+			for i := 0; i < opsEach; i++ {
+				n := names[rr.Intn(len(names))]
+				c := h.St.GetCollection(n)
+				if c == nil {
+					continue
+				}
+				key := w.U.Keys[(i+g)%len(w.U.Keys)]
+				var it *gkvlite.Item
+				switch rr.Intn(3) {
+				case 0:
+					it, _ = c.GetItem(key, true)
+				case 1:
+					it, _ = c.MinItem(true)
+				case 2:
+					it, _ = c.MaxItem(true)
+				}
+				w.handOut(h, c, it)
+			}
+		}()
+	}
+	done := make(chan bool)
+	go func() { wg.Wait(); close(done) }()
+	select {
+	case <-done:
+	case <-timeAfter(w.opTimeout):
+		w.emit(Ev{"e": "Panic", "cat": w.prop + ":hang", "msg": "concurrent value readers did not finish"})
+		w.dead = true
+		return false
+	}
+	if atomic.LoadInt32(&failed) != 0 {
+		w.emit(Ev{"e": "Panic", "cat": w.prop + ":panic", "msg": "panic in concurrent value readers"})
+		w.dead = true
+		return false
+	}
+	h.File.Gate = nil
+	h.File.Drain()
+	return true
+}
+
 // targetFor maps a target id (0 = below all, K+1 = above all, else a key of
 // the universe) to bytes under the collection's order.
 func (w *World) targetFor(name string, tid int) []byte {
